@@ -2,7 +2,7 @@
 import re, warnings
 import numpy as np, scipy.sparse as sp
 from vp.coqrun import fl, zl, clist, parse_zlist
-from vp import srcparams
+from vp import srcparams, link
 import umap
 
 ATOL = 1e-5          # same tables -> same graph (identical float32 pipeline; slack for summation order)
@@ -252,6 +252,11 @@ def tags_of(c):
 
 def run(ctx):
     ctx.check_proofs(["prop/P_C20.v"])
+    # translation tie: utils.submatrix (the gather that prunes a distance table to the listed columns) regenerated from the current
+    # source (py2coq); link theorem (coq/link/L_submatrix.v): over every Num, for every table and every rectangular index table with
+    # as many rows, the two prange loops return row-wise [dmat[i][c] for c in indices_col[i]] (M_submatrix.submatrix_model); with
+    # identity columns 0..k-1 that is take_cols k, the pruning of the C20 model (corollary src_submatrix_take_cols)
+    link.check(ctx, "utils_submatrix", {"submatrix": "src_submatrix_eq"})
     th = source_thresholds()
     ctx.extra["source_thresholds"] = th
     ok_thr = len(th["_validate_parameters"]) == 1 and th["_validate_parameters"][0] in th["fit"]
